@@ -2,7 +2,7 @@
    the cases on which the model and the output observed on the Go code differ
    (or on which the specification-side predicate fails on the observed output). *)
 From Coq Require Import String Ascii.
-From V Require Import Common.Base C15.Names C15.Renamer C15.Spec.
+From V Require Import Common.Base C15.Names C15.Renamer C15.Spec C15.ScopeBuild C15.ScopeProg.
 
 (* names travel as Coq string literals (much faster to parse than byte lists) *)
 Fixpoint nm (s : string) : name :=
@@ -138,3 +138,57 @@ Fixpoint minified_seq (n : nat) (count : Z) : list name :=
   end.
 Definition exportmin_ok (c : list name) : bool := list_eqb name_eqb (minified_seq (length c) 0) c.
 Definition check_exportmin := mismatches exportmin_ok.
+
+(* ---- scope construction: the forest numbered from the skeleton of a program
+   against the forest js_parser.Parse built for its text.  The Go side sends,
+   per scope, (name, canonical symbol number = Link followed, pinned?) of every
+   member and the children in order; the two forests must be isomorphic: same
+   shape, same member names per scope, and ONE bijection between the symbol
+   numbers of the two sides; and the symbol must be pinned on both sides or on neither *)
+Inductive ctree := CT (mem : list (name * Z * bool)) (ch : list ctree).
+
+Definition find_member (st : symtab) (x : name) (ids : list nat) : option nat :=
+  find (fun i => name_eqb (sy_name (getsym st i)) x) ids.
+
+Fixpoint zn_get (m : list (Z * nat)) (g : Z) : option nat :=
+  match m with [] => None | (k, v) :: r => if k =? g then Some v else zn_get r g end.
+Definition image_has (m : list (Z * nat)) (i : nat) : bool := existsb (fun p => Nat.eqb (snd p) i) m.
+
+Fixpoint match_members (st : symtab) (m : list (Z * nat)) (gm : list (name * Z * bool)) (ids : list nat)
+  : option (list (Z * nat)) :=
+  match gm with
+  | [] => Some m
+  | (x, g, pin) :: rest =>
+      match find_member st x ids with
+      | None => None
+      | Some i =>
+          if negb (Bool.eqb pin (ns_eqb (sy_ns (getsym st i)) NsPinned)) then None
+          else match zn_get m g with
+               | Some j => if Nat.eqb i j then match_members st m rest ids else None
+               | None => if image_has m i then None else match_members st ((g, i) :: m) rest ids
+               end
+      end
+  end.
+
+Fixpoint iso_tree (st : symtab) (m : list (Z * nat)) (g : ctree) (sc : scope) : option (list (Z * nat)) :=
+  match g, sc with
+  | CT gm gch, Scope ids gen _ _ ch =>
+      if negb (Nat.eqb (length gm) (length ids)) || negb (Nat.eqb (length gen) 0) then None
+      else match match_members st m gm ids with
+           | None => None
+           | Some m1 =>
+               (fix go (gs : list ctree) (cs : list scope) (m : list (Z * nat)) : option (list (Z * nat)) :=
+                  match gs, cs with
+                  | [], [] => Some m
+                  | g1 :: gr, c1 :: cr => match iso_tree st m g1 c1 with None => None | Some m' => go gr cr m' end
+                  | _, _ => None
+                  end) gch ch m1
+           end
+  end.
+
+(* (program, Go canonical forest) *)
+Definition scopebuild_ok (c : list stmt * ctree) : bool :=
+  let '(prog, g) := c in
+  let '(m, st) := parse_forest prog in
+  match iso_tree st [] g m with Some _ => true | None => false end.
+Definition check_scopebuild := mismatches scopebuild_ok.
